@@ -5,6 +5,10 @@ ROOT = os.path.dirname(os.path.dirname(os.path.abspath(__file__)))
 TECH = "bounded symbolic execution of the real Go code (own go/ssa -> QF_BV SMT-LIB2 executor; z3 5.1 primary, z3 4.8.12 cross-check on verdict queries; counterexamples replayed natively)"
 TRUST = "Trusted: the gosx SSA interpreter and term simplifier (validated by native replay of every counterexample, by reachability witnesses and by a second solver on verdict queries), the SMT solvers, Go's compiler for the native replay. "
 CHECKS = {
+ "C04": dict(text="Client: the real Connect of every upstream type (socket, stdio, packet, websocket; plain and TLS schemes) runs against a scripted server whose capability list carries 0-2 arbitrary bytes and whose statuses vary, with require-security on and off and a TLS stub whose handshake succeeds or fails symbolically; an application marker written through the installed connection must never reach a plaintext carrier in clear when security is required or StartTLS was offered on an insecure carrier, StartTLS is requested iff offered on an insecure carrier, failed handshakes give no session. Server: the real NewServerConnection for every certificate-manager state x carrier security x Security header with 0-3 arbitrary bytes: StartTLS advertised iff insecure carrier and certificate, a requested StartTLS yields a TLS-wrapped session reporting tls or no session, Secure() never true without TLS or a secure carrier.",
+             note="crypto/tls, gorilla/websocket, net dialing are contract stubs (listed in evidence); that TLS encrypts is trusted; the DNS upstream's Connect (same tail after the DNS handshake) and the endpoint Startup TLS choice (checked under C18) are outside this check; no native replay (engine concrete replay)."),
+ "C05": dict(text="Configuration flow into crypto/tls: ClientConfig/ServerConfig.GetTlsConfig over every combination of configured material, flags and load outcomes (verification off only with the insecure flag, CA pools installed iff configured, ClientAuth = RequireAndVerifyClientCert iff require-client-cert); for every upstream kind the tls.Config reaching tls.Dial / the websocket dialer / StartTLS has InsecureSkipVerify equal to the flag (documented stdio+tls exception asserted as such), StartTLS ServerName equal to the upstream host name, and the UDP cipher key is derived from the URL secret (cipher iff secret non-empty).",
+             note="Verification itself (chains, expiry, host matching) is crypto/x509 and trusted - the statement's accept/reject behaviour per certificate is decided only as far as the configuration that controls it; one native scenario runs real crypto/tls for the ServerName finding."),
  "C06": dict(text="The real NewServerConnection and NewClientConnection are executed on peer byte strings built from four templates per role with 1-3 arbitrary bytes replacing or inserted at every offset, every truncation, short fully arbitrary inputs and oversized lines, delivered in one chunk and in symbolic segmentations; asserted: no panic, identical outcome and identical answers for every segmentation, session iff an independent reading of the bytes (stdlib textproto on a fresh buffer + the harness's own field logic) says well-formed and compatible, refusals carry an error status or nothing.",
              note="At most 3 simultaneously arbitrary bytes (4 for fully arbitrary inputs); segmentations: one or two cut points and byte-wise; net/http Header.Write is a differential-tested model under the engine; the client role runs on a carrier already secure (StartTLS decisions are C04's subject); memory growth on endless lines is outside."),
  "C07": dict(text="Inductive step of the real OutQueue/InQueue operations from an arbitrary state satisfying the representation invariant (head sequence number unconstrained over all 2^16 values, which covers wrap-around), plus a bounded run of the real client and server glue over a path with symbolic per-exchange fates, plus the real timeout/retransmission chain with a symbolic loss pattern.",
